@@ -123,8 +123,13 @@ pub struct Pol {
 }
 
 /// prefixes of explicit prefix rules (same table as `prefixTable` in Drv/Policy.lean)
-pub const PREFIXES: [&str; 10] = ["policy-commitment-", "policy-mutual-", "policy-", "policy-channel-", "policy-commitment-htlc-",
-    "policy-commitment-fee", "", "policy-onchain-", "policy-revoke-", "policy-funding-"];
+pub const PREFIXES: [&str; 14] = ["policy-commitment-", "policy-mutual-", "policy-", "policy-channel-", "policy-commitment-htlc-",
+    "policy-commitment-fee", "", "policy-onchain-", "policy-revoke-", "policy-funding-",
+    // (10..) LONGER than the real tags they extend: as prefix rules they match no real tag and must downgrade nothing
+    "policy-commitment-fee-range-x", "policy-commitment-outputs-trimmed-more", "policy-mutual-fee-range-x",
+    "policy-commitment-htlc-count-limit2"];
+/// indices of the over-long entries of `PREFIXES`
+pub const OVERLONG: [u64; 4] = [10, 11, 12, 13];
 
 impl Pol {
     pub fn default_testnet() -> Pol {
@@ -272,6 +277,10 @@ pub fn gen_overlap_rules(rng: &mut Rng, bits: &[u64]) -> Vec<(u64, u64, u64)> {
     if rng.chance(1, 3) {
         let extra = (rng.below(MASK_TAGS.len() as u64), 0, rng.below(2));
         if rng.chance(1, 2) { rules.insert(0, extra) } else { rules.push(extra) }
+    }
+    // a warn prefix rule whose prefix is LONGER than the tag it extends, in front: it matches nothing
+    if rng.chance(1, 4) {
+        rules.insert(0, (*rng.pick(&OVERLONG), 1, 1));
     }
     rules
 }
@@ -687,6 +696,20 @@ impl World {
                     cw.node_ctx = TestNodeContext { node, secp_ctx: Secp256k1::signing_only() };
                 }
                 self.out.tags.insert("restart".into());
+                // "afterwards the channel is marked closed" must survive a restart: once a closing signature was
+                // returned, the state restored from the persister has to say closed (through every id)
+                if self.chan.as_ref().map(|c| c.ready && c.close_signed).unwrap_or(false) {
+                    let cw = self.chan.as_ref().unwrap();
+                    let (node, ids) = (cw.node_ctx.node.clone(), cw.ids.clone());
+                    for id in &ids {
+                        let closed = node.with_channel(id, |c| Ok(c.enforcement_state.channel_closed)).unwrap_or(false);
+                        if !closed {
+                            let at = self.opno;
+                            self.violation(at, "close-not-marked-closed",
+                                "a closing signature was returned, but the channel restored from the persister is not marked closed".into());
+                        }
+                    }
+                }
                 if self.chan.as_ref().map(|c| c.ready).unwrap_or(false) {
                     format!("ok {}", self.digest())
                 } else {
